@@ -195,11 +195,9 @@ def probe_rep_mismatch(run, p):
 
 
 def probe_inline_frame(run, p):
-    """finding C18-inline-frame-assert: asn1c aborts (assertion in asn1c_lang_C_type_SEQUENCE) on a frame written inline"""
+    """a frame written inline (asn1c used to abort on it: C18-inline-frame-assert, fixed): it must build, return valid frames
+    and refuse mismatches like a frame that is a type of its own"""
     run.case(p["fs"] + " build PR3")
-    if p.get("asn1c_rc") not in (0, None) and "Assertion" in p.get("asn1c_out", "") and "asn1c_lang_C_type_SEQUENCE" in p.get("asn1c_out", ""):
-        run.known_finding("C18-inline-frame-assert", "build PR3")
-        return
     if not p.get("exe"):
         run.violation("build:module", {"what": "the probe module with an inline frame does not build", "module": PR3, "options": p["opts"],
                                        "asn1c_rc": p.get("asn1c_rc"), "asn1c_out": p.get("asn1c_out", "")[-1500:], "build_log": p.get("build_log", "")[-1500:]})
